@@ -5,6 +5,7 @@ package idgen
 import (
 	"context"
 	"fmt"
+	"runtime"
 	"strings"
 	"sync"
 	"sync/atomic"
@@ -217,6 +218,7 @@ func c15RunLease(t *testing.T, run *vk.Run, sc c15LeaseScenario) {
 	armed.Store(true)
 	trace := []string{"A.AllocateNodeID -> " + idA}
 	violated := false
+	noHeartbeat := false
 	// probe: a competing node starts up now
 	probe := func(gap int) bool {
 		b := node.NewNodeIDAllocator(stB)
@@ -233,7 +235,8 @@ func c15RunLease(t *testing.T, run *vk.Run, sc c15LeaseScenario) {
 			run.Violation("C15:node-id-reissued-while-holder-alive|backend="+sc.Backend, map[string]any{
 				"scenario": sc, "trace": trace, "id": idA, "lease_key": leaseKey,
 				"writes_that_reached_a_tier_after_allocation(tier.op)": ws,
-				"note": "A never called Release, its heartbeat goroutine was running and returned from a renewal call in every period; every gap between renewals was below the 90 s lease TTL on the store clock",
+				"holder_had_no_renewal_goroutine":                      noHeartbeat,
+				"note":                                                 "A never called Release; unless holder_had_no_renewal_goroutine, its heartbeat returned from a renewal call in every period and every gap between renewals was below the 90 s lease TTL on the store clock",
 			})
 			violated = true
 			return false
@@ -258,15 +261,35 @@ func c15RunLease(t *testing.T, run *vk.Run, sc c15LeaseScenario) {
 		if g == sc.Beats+1 {
 			break
 		}
+		if noHeartbeat {
+			continue
+		}
 		select {
 		case <-beat:
 			lastRenewal = time.Now()
 			run.Count("heartbeats_observed", 1)
 			trace = append(trace, "A's heartbeat returned from its renewal call")
 		case <-time.After(50 * time.Second):
-			run.Count("watchdog", 1)
-			run.Observe("watchdog_"+sc.Backend, "no renewal call on the lease key within 50 s")
-			return
+			// No renewal call returned although more than one heartbeat period went by.
+			// Late, or never coming? Decided by what exists, not by the clock: if no
+			// goroutine at all is executing code of the node package, nothing can renew
+			// A's lease any more although A is alive and unreleased. Then the history
+			// simply continues (time passes on the store clock, the competitor probes)
+			// and the ordinary oracle judges it. If such goroutines exist the renewal
+			// may merely be late (stalled machine): inconclusive.
+			n := c15NodePkgGoroutines()
+			for i := 0; i < 4 && n > 0; i++ { // a competitor of another scenario may be inside AllocateNodeID right now
+				time.Sleep(50 * time.Millisecond)
+				n = c15NodePkgGoroutines()
+			}
+			if n > 0 {
+				run.Count("watchdog", 1)
+				run.Observe("watchdog_"+sc.Backend, fmt.Sprintf("no renewal call on the lease key within 50 s, %d goroutine(s) of the node package still exist", n))
+				return
+			}
+			noHeartbeat = true
+			run.Count("holder_without_renewal_goroutine", 1)
+			trace = append(trace, "no renewal call returned within 50 s and no goroutine of package internal/core/node exists: A (alive, unreleased) will never renew")
 		}
 	}
 	run.Eval(1)
@@ -280,6 +303,27 @@ func c15RunLease(t *testing.T, run *vk.Run, sc c15LeaseScenario) {
 		run.Count("lease_kept", 1)
 	}
 	_ = a.Release()
+}
+
+// c15NodePkgGoroutines counts goroutines that have a frame of the (non-test) node
+// package on their stack, i.e. anything that could still renew a lease.
+func c15NodePkgGoroutines() int {
+	buf := make([]byte, 1<<20)
+	for {
+		n := runtime.Stack(buf, true)
+		if n < len(buf) {
+			buf = buf[:n]
+			break
+		}
+		buf = make([]byte, 2*len(buf))
+	}
+	cnt := 0
+	for _, g := range strings.Split(string(buf), "\n\n") {
+		if strings.Contains(g, "tunnox-core/internal/core/node.") {
+			cnt++
+		}
+	}
+	return cnt
 }
 
 func TestVerifC15NodeLease(t *testing.T) {
